@@ -241,6 +241,15 @@ func genC18() {
 		nums = append(nums, c18ChainArg(e, "WithNumGPUs"))
 	}
 	o.strs("runnerNumGPUs", rn+": buildEmuPlatform / buildTimingPlatform, the number of GPUs the platform is built with", nums)
+	// the helper both builders call for that number (`r.numGPUsToBuild()`): its statements, whitespace-normalised
+	var body []string
+	if len(nums) > 0 && strings.HasPrefix(nums[0], "r.") && strings.HasSuffix(nums[0], "()") {
+		h := c10Func(frn, rn, "Runner", strings.TrimSuffix(strings.TrimPrefix(nums[0], "r."), "()"))
+		for _, st := range h.Body.List {
+			body = append(body, strings.Join(strings.Fields(nodeString(st)), " "))
+		}
+	}
+	o.strs("runnerNumGPUsBody", rn+": the statements of the helper that computes the number of GPUs (empty: the number is an expression)", body)
 	cu := c10Func(frn, rn, "Runner", "createUnifiedGPUs")
 	e, _ = c10Assign(cu, rn, "r.GPUIDs", 0)
 	o.strs("runnerUnified", rn+": createUnifiedGPUs, the GPUs unified and the list the benchmarks get",
